@@ -30,13 +30,16 @@ def _immutable_literal(e):
     return False
 
 
-def _literal(e):
+def _literal(e, names=()):
+    """literal display; `names` = module-level names (classes, functions, imports) that may appear as leaves"""
     if _immutable_literal(e):
         return True
+    if isinstance(e, ast.Name) and e.id in names:
+        return True
     if isinstance(e, (ast.List, ast.Set, ast.Tuple)):
-        return all(_literal(x) for x in e.elts)
+        return all(_literal(x, names) for x in e.elts)
     if isinstance(e, ast.Dict):
-        return all(k is not None and _literal(k) for k in e.keys) and all(_literal(v) for v in e.values)
+        return all(k is not None and _literal(k) for k in e.keys) and all(_literal(v, names) for v in e.values)
     return False
 
 
@@ -64,8 +67,17 @@ def inline_constants(trees, report):
                 bound.setdefault(st.targets[0].id, []).append(st)
             elif isinstance(st, ast.AnnAssign) and isinstance(st.target, ast.Name) and st.value is not None:
                 bound.setdefault(st.target.id, []).append(st)
+        from .refnorm import module_globals
+
+        stable = set()
+        for st in tree.body:
+            if isinstance(st, (ast.FunctionDef, ast.AsyncFunctionDef, ast.ClassDef)):
+                stable.add(st.name)
+            elif isinstance(st, (ast.Import, ast.ImportFrom)):
+                for al in st.names:
+                    stable.add((al.asname or al.name).split(".")[0])
         for name, sts in bound.items():
-            if name in known or not name.startswith("_") or name.startswith("__") or len(sts) != 1 or not _literal(sts[0].value):
+            if name in known or not name.startswith("_") or name.startswith("__") or len(sts) != 1 or not _literal(sts[0].value, stable):
                 continue
             # never rebound elsewhere (global statement, augmented assignment, other stores at module level)
             stores = [n for n in ast.walk(tree) if isinstance(n, ast.Name) and n.id == name and isinstance(n.ctx, (ast.Store, ast.Del))]
@@ -94,8 +106,12 @@ def inline_constants(trees, report):
                 value = consts[n.id][1].value
                 par = pm.get(id(n))
                 if not _immutable_literal(value):
-                    if not (isinstance(par, ast.Compare) and len(par.ops) == 1 and isinstance(par.ops[0], (ast.In, ast.NotIn)) and par.comparators[0] is n):
+                    membership = isinstance(par, ast.Compare) and len(par.ops) == 1 and isinstance(par.ops[0], (ast.In, ast.NotIn)) and par.comparators[0] is n
+                    lookup = isinstance(par, ast.Subscript) and par.value is n and isinstance(par.ctx, ast.Load)
+                    if not (membership or lookup):
                         continue
+                if consts[n.id][0] != rel and any(isinstance(x, ast.Name) for x in ast.walk(value)):
+                    continue  # names of the defining module are not necessarily visible here
                 new = copy.deepcopy(value)
                 for x in ast.walk(new):
                     ast.copy_location(x, n)
